@@ -99,8 +99,32 @@ def make_spec(r, heights, nrow, strategy, changes=None, reservations=None):
     return spec
 
 
+def collision_spec(r):
+    """Two grouping columns whose values contain the separator the heading text is joined with: adjacent groups
+    ('@A', '@B | @C') and ('@A | @B', '@C') differ in both columns although their joined texts coincide."""
+    strategy = r.choice(["page_by_new", "page_by_new", "subline"])
+    n = r.randint(4, 8)
+    cut = r.randint(1, n - 1)
+    spec = make_spec(r, [1] * n, r.randint(6, 14), strategy, [False] * (n - 1), reservations=r.choice([0, 1, 3]))
+    cols = spec["df"]["cols"]
+    for extra in ("g0", "g1"):
+        if extra not in cols:
+            cols.append(extra)
+            for row in spec["df"]["rows"]:
+                row.append("")
+    j0, j1 = cols.index("g0"), cols.index("g1")
+    for i, row in enumerate(spec["df"]["rows"]):
+        row[j0], row[j1] = ("@A", "@B | @C") if i < cut else ("@A | @B", "@C")
+    key = "subline_by" if strategy == "subline" else "page_by"
+    spec["body"][key] = ["g0", "g1"]
+    spec.pop("headers", None)
+    return spec
+
+
 def generate(g, i):
     r = g.r
+    if r.random() < 0.06:
+        return collision_spec(r)
     if r.random() < 0.15:
         # every row the same multi-line height, capacity often not a multiple of it
         h = r.choice([2, 2, 3, 4])
